@@ -2572,3 +2572,32 @@ package goatlang
 //@   requires n >= 1 && (n & (n - 1)) == 0 && n <= 1152921504606846976
 //@   ensures#dbl (n << 1) >= 1 && ((n << 1) & ((n << 1) - 1)) == 0
 //@   ensures#half n >= 2 ==> (n >> 1) >= 1 && ((n >> 1) & ((n >> 1) - 1)) == 0 && ((n >> 1) << 1) == n
+
+// ---------------------------------------------------------------------------------------------
+// C03: no Go panic escapes the entry points. A function with a recover handler is verified with
+// the handler body executed from the state of every panic raised on the protected path (what a
+// panicking callee may have modified is unknown there); `nopanic` on it means that nothing
+// escapes, i.e. the handler itself cannot panic.
+// ---------------------------------------------------------------------------------------------
+//@ -- positions stamped into instructions index interned names of the globals table
+//@ spec posOK(l *lookup, p pos) bool
+//@   def int((p >> 48) & 0xffff) < len(l.indexToKey) && int((p >> 32) & 0xffff) < len(l.indexToKey) && len(l.indexToKey[int((p >> 48) & 0xffff)]) >= 1 && len(l.indexToKey[int((p >> 32) & 0xffff)]) >= 1
+//@ func (pos).info
+//@   property C03 C20
+//@   axioms BRIDGE_ORD
+//@   requires l != nil && posOK(l, p)
+//@   nopanic
+//@ func (pos).String
+//@   property C03 C20
+//@   requires l != nil && posOK(l, p)
+//@   nopanic
+//@ func (*VM).btErr
+//@   property C03 C20
+//@   requires v != nil && v.globals != nil
+//@   assumes#A-POS forall j int :: 0 <= j && j < len(v.frame.Codes) ==> posOK(v.globals, v.frame.Codes[j].Pos)
+//@   assumes#A-BT forall j int :: 0 <= j && j < len(v.backtrace) ==> posOK(v.globals, v.backtrace[j])
+//@   allocates elems(string)
+//@   nopanic
+//@ func (*VM).btErr loop 0
+//@   invariant n >= -1 && n < len(bt) && bt == v.backtrace && v.globals != nil && (cap(lines) == 0 || isfresh(arr(lines)))
+//@   invariant forall j int :: 0 <= j && j < len(bt) ==> posOK(v.globals, bt[j])
